@@ -76,6 +76,13 @@ def cases(tier, seed):
                 for default in ('zero', 'fail'):
                     cs.append({'type': tname, 'order': list(order), 'truth': truth,
                                'default': default})
+            # the same function object registered for two of the patterns (one cost model serving
+            # e.g. both the depthwise and the 3x3 pattern): the patterns stay distinct
+            for pair in itertools.combinations(order, 2):
+                for truth in truths:
+                    cs.append({'type': tname, 'order': list(order), 'truth': truth,
+                               'default': 'zero' if len(truth) % 2 else 'fail',
+                               'share': list(pair)})
     # the built-in constraints themselves, against their documented meaning (depthwise: in ==
     # groups == out; 3x3: every kernel dimension equals 3), on grouped / channel-multiplier layers
     cs.append({'type': 'constraint-semantics'})
@@ -205,8 +212,12 @@ def run_case(case, ctx):
     spec = CostSpec(shared=True, default_behavior=case['default'])
     fns = {}
     for k in case['order']:
-        fn = (lambda name: (lambda s: name))(k)
-        fn.__name__ = 'cost_fn_' + k
+        share = case.get('share') or []
+        if k in share and any(o in fns for o in share):
+            fn = next(fns[o] for o in share if o in fns)
+        else:
+            fn = (lambda name: (lambda s: name))(k)
+            fn.__name__ = 'cost_fn_' + k
         fns[k] = fn
         spec[(t, pats[k])] = fn
     lspec = layer_spec(case['type'], case['truth'])
@@ -238,6 +249,7 @@ def run_case(case, ctx):
                 'no-error-on-conflict' if want == 'ERROR' else 'wrong-function'),
             'type': case['type'], 'registration_order': case['order'],
             'constraints_satisfied': case['truth'], 'default': case['default'],
+            'same_function_for': case.get('share'),
             'got': 'KeyError: ' + str(err) if got == 'ERROR' else getattr(got, '__name__', str(got)),
             'want': want if want == 'ERROR' else getattr(want, '__name__', str(want))})
     # the default function must behave as declared
@@ -251,9 +263,10 @@ def run_case(case, ctx):
             if case['default'] != 'fail':
                 ctx.violation('lookup', {'sig': 'default-behaviour', 'default': case['default'],
                                          'value': 'raised'})
-    ctx.cls(f"{case['type']}-n{len(case['order'])}")
+    ctx.cls(f"{case['type']}-n{len(case['order'])}" + ('-shared-function' if case.get('share') else ''))
     if len(case['order']) >= 2:
-        ctx.nontriv((case['type'], tuple(case['order']), tuple(case['truth']), case['default']))
+        ctx.nontriv((case['type'], tuple(case['order']), tuple(case['truth']), case['default'],
+                     tuple(case.get('share') or ())))
     if len(case['order']) == 3 and case['truth']:
         ctx.sample({'type': case['type'], 'registration_order': case['order'],
                     'constraints_satisfied_by_layer': case['truth'], 'default': case['default'],
